@@ -66,6 +66,8 @@ class Arr:
 
 
 class Obj:
+    strict = False       # True: every attribute the object has was put there by interpreted code, so reading one it lacks raises AttributeError
+
     def __init__(self, cls, attrs=None, name=None):
         self.cls, self.attrs, self.name = cls, dict(attrs or {}), name
 
@@ -264,6 +266,9 @@ class Interp:
                 env[n] = Unk('missing argument %s of %s' % (n, fi.qual), node)
         env['__module__'] = fi.module
         env['__func__'] = fi
+        is_gen = any(isinstance(n_, (ast.Yield, ast.YieldFrom)) for n_ in _walk_own(fi.node))
+        if is_gen:
+            env['__yields__'] = []          # a generator is run eagerly: its result is the list of what it yields
         self.depth += 1
         self.stack.append(fi.qual)
         try:
@@ -278,6 +283,8 @@ class Interp:
             self.stack.pop()
         if '__tainted__' in env and (sig is None or sig[0] == 'return'):
             return env['__tainted__']
+        if is_gen and (sig is None or sig[0] == 'return'):
+            return list(env['__yields__'])
         if sig is None:
             return None
         if sig[0] == 'return':
@@ -361,6 +368,18 @@ class Interp:
 
     def _stmt(self, st, env, mod):
         if isinstance(st, ast.Expr):
+            if isinstance(st.value, ast.Yield) and '__yields__' in env:
+                env['__yields__'].append(self.expr(st.value.value, env, mod) if st.value.value is not None else None)
+                return None
+            if isinstance(st.value, ast.YieldFrom) and '__yields__' in env:
+                src_ = self.expr(st.value.value, env, mod)
+                if isinstance(src_, Obj):
+                    src_ = self.iterate_obj(src_, st)
+                if isinstance(src_, (list, tuple)):
+                    env['__yields__'].extend(src_)
+                else:
+                    env['__yields__'].append(Unk('yield from %r' % (src_,), st))
+                return None
             if isinstance(st.value, (ast.Call, ast.Yield)):
                 self.expr(st.value, env, mod)
             return None
@@ -436,7 +455,28 @@ class Interp:
         if isinstance(st, ast.With):
             return self.block(st.body, env, mod)
         if isinstance(st, ast.While):
-            self._poison(st, env, Unk('while loop not modelled', st))
+            # a loop whose test is concrete on every iteration (typically `while True` left by break / return / an exception): unrolled, bounded
+            for _ in range(64):
+                dec = self.hooks.decide(self, st.test, env, mod)
+                if dec is None:
+                    dec = self._truth(self.expr(st.test, env, mod))
+                if dec is None:
+                    u_ = Unk('while loop with a test the analysis cannot decide', st)
+                    self._poison(st, env, u_)
+                    env['__tainted__'] = u_          # whatever the function returns (or yields) after this point is not known
+                    return None
+                if not dec:
+                    return self.block(st.orelse, env, mod) if st.orelse else None
+                sig = self.block(st.body, env, mod)
+                if sig:
+                    if sig[0] == 'break':
+                        return None
+                    if sig[0] == 'continue':
+                        continue
+                    return sig
+            u_ = Unk('while loop did not terminate within 64 iterations although every test was decided', st, definite=True)
+            self._poison(st, env, u_)
+            env['__tainted__'] = u_
             return None
         if isinstance(st, ast.FunctionDef) and not st.decorator_list:
             from .loader import FuncInfo
@@ -542,6 +582,8 @@ class Interp:
                 sig = self.block(st.body, env, mod)
                 return sig if sig and sig[0] in ('return', 'raise') else None
         itv = self.expr(it, env, mod)
+        if isinstance(itv, Obj):
+            itv = self.iterate_obj(itv, st)
         gen = self._generic_iter(itv, st)
         if gen is not None:
             if isinstance(gen, list):          # concrete unrolling
@@ -683,6 +725,8 @@ class Interp:
                         r_ = Unk('unknown attribute %s.%s' % (o.cls.name, name), node)
                     if not (isinstance(r_, Unk) and 'always raises' in r_.why):
                         return r_
+        if o.strict:
+            raise PyRaise('AttributeError', '%s object has no attribute %s' % (o.cls.name if o.cls else 'object', name))
         return Unk('unknown attribute %s.%s' % (o.cls.name if o.cls else '?', name), node)
 
     def _holder(self, node, env, mod):
@@ -936,6 +980,14 @@ class Interp:
         if e.id in BUILTINS:
             return Marker('builtins.' + e.id)
         return Unk('unbound name %s' % e.id, e)
+
+    def iterate_obj(self, o, node):
+        """what iterating an object of a repo class gives: its __iter__ run eagerly"""
+        it = self.repo.find_member(o.cls, '__iter__') if o.cls is not None else None
+        if it is not None and it[0] == 'method':
+            r = self.call(it[1], [], selfv=o, node=node)
+            return r
+        return Unk('iteration over %r' % (o,), node)
 
     def module_value(self, mod, name):
         """value of a module-level name: the module body's simple statements (assignments to names, stores into their items,
@@ -1217,13 +1269,32 @@ class Interp:
             return r if opn is ast.In else not r
         if opn in (ast.In, ast.NotIn):
             if isinstance(b, (list, tuple, dict, str)) and isinstance(a, (str, int, float, bool, type(None), Foreign)):
-                r = a in b
+                try:
+                    r = a in b
+                except TypeError as ex_:
+                    raise PyRaise('TypeError', str(ex_))
                 return r if opn is ast.In else not r
             return Unk('membership test', e)
         if isinstance(a, Unk):
             return a
         if isinstance(b, Unk):
             return b
+        if isinstance(a, Obj) and isinstance(b, Obj) and opn in (ast.Eq, ast.NotEq) and a.cls is not None:
+            m_eq = self.repo.find_member(a.cls, '__eq__')
+            m_ne = self.repo.find_member(a.cls, '__ne__')
+            if opn is ast.NotEq and m_ne is not None and m_ne[0] == 'method':
+                return self.call(m_ne[1], [b], selfv=a, node=e)
+            if m_eq is not None and m_eq[0] == 'method':
+                r_ = self.call(m_eq[1], [b], selfv=a, node=e)
+                if opn is ast.Eq:
+                    return r_
+                t_ = self._truth(r_)
+                if t_ is not None:
+                    return not t_
+                if isinstance(r_, Arr) and r_.ndim == 0 and _is_boolean(r_.poly):
+                    return r_.with_(poly=alg.b_not(r_.poly))
+                return Unk('!= through __eq__ of %s' % a.cls.name, e)
+            return (a is b) if opn is ast.Eq else (a is not b)
         if (a is None or b is None) and opn in (ast.Eq, ast.NotEq) and not (isinstance(a, Obj) or isinstance(b, Obj)):
             same_ = a is None and b is None       # None == <array / number / string> is False
             return same_ if opn is ast.Eq else not same_
@@ -1992,6 +2063,8 @@ class Interp:
                 if last == 'min':
                     return Arr((), a.poly + alg.lt(b.poly, a.poly) * (b.poly - a.poly), unit=a.unit)
                 return Arr((), a.poly + alg.lt(a.poly, b.poly) * (b.poly - a.poly), unit=a.unit)
+            if last == 'object' and not args and not kw:
+                return Obj(None, {}, 'sentinel')             # object(): a value equal only to itself
             if last == 'isinstance':
                 return self._isinstance(args[0], args[1], e)
             if last == 'slice' and 1 <= len(args) <= 3 and not kw:
@@ -2047,6 +2120,21 @@ class Interp:
             if last in ('spectral', 'spectral_density'):
                 return Marker(name)
             return Unk('astropy.units.%s' % last, e)
+        if name.startswith('copy.') and last in ('copy', 'deepcopy') and args and isinstance(args[0], Obj) and args[0].cls is not None:
+            src_ = args[0]
+            gs_, ss_ = self.repo.find_member(src_.cls, '__getstate__'), self.repo.find_member(src_.cls, '__setstate__')
+            if gs_ is not None and ss_ is not None and gs_[0] == 'method' and ss_[0] == 'method':
+                # the copy protocol of a class with its own pickling state: new object, state taken from the original and restored into it
+                state_ = self.call(gs_[1], [], selfv=src_, node=e)
+                if last == 'deepcopy':
+                    state_ = _copy_val(state_, {})
+                new_ = Obj(src_.cls, {}, src_.name)
+                new_.strict = src_.strict
+                r_ = self.call(ss_[1], [state_], selfv=new_, node=e)
+                return r_ if isinstance(r_, Unk) else new_
+        if name.startswith('copy.') and last == 'copy' and args and isinstance(args[0], Obj):
+            o_ = Obj(args[0].cls, dict(args[0].attrs), args[0].name)          # shallow: a new object holding the same attribute values
+            return o_
         if name.startswith('copy.') and last in ('copy', 'deepcopy'):
             return _copy_val(args[0], {})
         if name in ('scipy.interpolate.interp1d', 'scipy.interpolate.interpolate.interp1d'):
@@ -2084,6 +2172,14 @@ class Interp:
         if isinstance(v, Obj) and v.cls is not None:
             mro = {c.name for c in self.repo.mro(v.cls)}
             return bool(mro & set(names))
+        if isinstance(v, bool):
+            return bool({'bool', 'int'} & set(names))
+        if isinstance(v, int):
+            return 'int' in names
+        if isinstance(v, float):
+            return 'float' in names
+        if v is None:
+            return 'NoneType' in names
         if isinstance(v, str):
             return 'str' in names
         if isinstance(v, (list, tuple)):
@@ -2433,6 +2529,17 @@ def _xr(v):
     if isinstance(v, (int, float, Fraction)):
         return ('const', float(v))
     return ('top',)
+
+
+def _walk_own(fnode):
+    """nodes of a function body, not descending into nested functions / lambdas / classes"""
+    stack = list(fnode.body)
+    while stack:
+        n_ = stack.pop()
+        yield n_
+        for c_ in ast.iter_child_nodes(n_):
+            if not isinstance(c_, (ast.FunctionDef, ast.AsyncFunctionDef, ast.Lambda, ast.ClassDef)):
+                stack.append(c_)
 
 
 def _dtype_kind(v, default):
